@@ -14,6 +14,12 @@ func unitDispatch(name string, args []string, out *bufio.Writer) bool {
 	case "conc-ring":
 		concRing(args, out)
 		return true
+	case "conc-flight":
+		concFlight(args, out)
+		return true
+	case "conc-lin":
+		concLin(args, out)
+		return true
 	case "conc-policy":
 		concPolicy(args, out)
 		return true
